@@ -87,6 +87,15 @@ Proof. exact model_satisfies_oracle. Qed.
 Theorem C49_check_case_zero : forall c, check_case c = 0%nat -> check_C49 c = true /\ c_obs c = model (c_in c).
 Proof. exact check_case_zero. Qed.
 
+(* options.Parse: accepted iff all keys are non-empty and no key has two different values; then the map
+   holds exactly the (lower-cased trimmed key, trimmed value) pairs of the input *)
+Theorem C49_options_parse_exact : forall l,
+  match options_parse l with
+  | OpOk m => (forall k v, olookup m k = Some v <-> In (k, v) (map kv_of l)) /\ keys_ok l /\ functional (map kv_of l)
+  | OpErr => ~ (keys_ok l /\ functional (map kv_of l))
+  end.
+Proof. exact options_parse_exact. Qed.
+
 Print Assumptions C49_no_parser_panics.
 Print Assumptions C49_parse_duration_total.
 Print Assumptions C49_parse_duration_exact.
@@ -104,3 +113,4 @@ Print Assumptions C49_shell_split_fields.
 Print Assumptions C49_oracle_sound.
 Print Assumptions C49_model_satisfies_oracle.
 Print Assumptions C49_check_case_zero.
+Print Assumptions C49_options_parse_exact.
